@@ -269,8 +269,9 @@ def main(argv):
         for b in bad[:5]:
             ctx.disagreement("composed Lean model HashClient∘Client with broadcasts (flush_all / quit / close) differs from the real HashClient", b,
                              theorem="C01_hash_broadcast_own_bytes_only")
-    # composed model HashClient ∘ PooledClient ∘ Client (Pymc/Model/HashPooledCall.lean): random histories of single-key calls with per-call
-    # scripts on the real HashClient(use_pooling=True), compared call by call (result, server, PooledClient invoked, inner client, socket used,
+    # composed model HashClient ∘ PooledClient ∘ Client (Pymc/Model/HashPooledCall.lean, HashPooledCallMany.lean): random histories of single-key
+    # calls, get_many / gets_many, set_many and delete_many (keys spread over 1-3 servers, per-call fault scripts on individual servers) on the
+    # real HashClient(use_pooling=True), compared call by call (result, servers contacted in order, PooledClient invoked, inner client, socket used,
     # bookkeeping state, and per registered pool: idle clients with socket / unread bytes, sockets closed in order, checked-out count)
     if ctx.lean.build_ok:
         import hashpooledcall_diff
@@ -278,7 +279,7 @@ def main(argv):
         ctx.count("composed-hashpooled-model-calls", ncalls)
         for b in bad[:5]:
             ctx.disagreement("composed Lean model HashClient∘PooledClient∘Client differs from the real HashClient(use_pooling=True)", b,
-                             theorem="C01_hashpooled_own_bytes_only")
+                             theorem="C01_hashpooled_many_own_bytes_only" if b.get("multi") else "C01_hashpooled_own_bytes_only")
     ctx.assumptions = ["the server emits exactly one reply unit per reply-expecting command (framing grammar of DESIGN.md C01); content inside a unit is adversarial",
                        "late delivery after a timeout is modelled as bytes that stay in the pipe of that connection", "BaseException faults are C10"]
     ctx.finish()
